@@ -256,6 +256,26 @@ ROUND9_OVERLAP = {
 for _k, _v in ROUND9_OVERLAP.items():
     CLAIMED[_k]["text"] += " " + _v
 
+
+# round 10 (a fault at a particular point): the swallowed-fault grid
+ROUND10_SWALLOWED = ("Round 10 (a fault at a particular point): phase swallowed, a fixed grid enumerated completely on every run: expression forms "
+  "with a hole in one operand position (arithmetic, string and logic chains, comparisons, list / map literals, argument lists of every call path, return "
+  "lists, multi-assignment, element / map / variable op-assignment, stores, index and slice operands, conditions, loop bounds, switch subjects, in, defer "
+  "arguments, builtin and unary operands, nested functions; the forms that are instances of this property's statement) x 33 faults that fail after evaluating "
+  "a pure part of themselves (unbound names at every position of a chain, throwing script functions, panicking host functions, modulo zero, index out of "
+  "range, member of nil, failing calls of every call path incl. functions whose body throws, nested op-assignments whose right side fails, callbacks failing "
+  "at their k-th call inside sort.Slice / strings.Map) x 3 swallowers ((F) ?? V, a catching script function, try/catch before the form), followed by the same "
+  "constructs, builtin and package calls without any fault; plus 22 failing statements (multi-assignment targets, op-assignments, delete, loop headers, "
+  "switch cases, defer / go statements whose arguments fail, finally blocks) inside try in a function whose enclosing scopes bind the names, with the "
+  "follow-up assignments and read-backs after the try, inside the catch block and inside the finally block. Oracle: the program and its fault-free sibling "
+  "(V written in place of the swallowed fault / the failing statement left out) record the same probe trace, value, error status and read-backs.")
+for _k in ("C03", "C04", "C05", "C06", "C07", "C08", "C09", "C10", "C11", "C19"):
+    CLAIMED[_k]["text"] += " " + ROUND10_SWALLOWED
+CLAIMED["C14"]["text"] += (" Round 9/10: phases company-only and company-only-race (the battery of cmd/vworker/company.go alone, batches of eight executions released together in "
+  "environments and trees of their own, judged by the battery's own natively computed values and, in the race build, by the race detector: any report with an anko frame is hidden "
+  "shared mutable state); phase seq also gives every program's source text, extended by one of 15 faults the parser reports only after the whole valid program, four times to the "
+  "execute-a-source entry point in fresh environments: same error status, value and trace every time.")
+
 def main():
     checks = []
     for pid in ALL:
